@@ -236,6 +236,36 @@ Theorem C12_mkdir_all_post_kernel_backend :
     end.
 Proof. exact DynResolve.mkdir_all_kernel_post. Qed.
 
+(* ---- C12, completeness: mkdir_all has no reason to fail when every component that exists along the remaining
+   chain is a directory and every name fits NAME_MAX -- and then it does not fail (kernel backend).  [dirs_ok]:
+   every entry's directory is an object of the tree. *)
+From PV Require DynMkdirComplete.
+
+Theorem C12_spec_complete :
+  forall ps s o, DynMkdir.closed2 s -> DynMkdirComplete.dirs_ok s -> (o < length (FSModel.kinds s))%nat -> FSModel.is_dir s o = true ->
+  Forall (fun p => Dyn.plain p = true) ps -> DynMkdirComplete.chain_ok s o ps ->
+  exists c, snd (DynMkdir.mk_spec s o ps) = inl c.
+Proof. exact DynMkdirComplete.mk_spec_complete. Qed.
+
+Theorem C12_mkdir_all_succeeds_kernel_backend :
+  forall s rp fz pfuel gh ps rs t root path mode o rm exp,
+  fz <> 0%nat -> DynMkdir.closed2 s -> DynMkdirComplete.dirs_ok s -> FSModel.is_dir s FSModel.ROOT = true ->
+  ph_mnt gh = Some Static.PROC_MNT -> ph_openat2 gh = true -> rs_kernel rs = true ->
+  Static.tget t root = Some FSModel.ROOT -> Static.tget t (ph_fd gh) = Some (Static.PB s) -> has_nul path = false -> path <> [] ->
+  N.ldiff mode MKDIR_ALL_MASK1 = 0 -> N.ldiff mode MKDIR_ALL_MASK2 = 0 ->
+  let nosym := has (N.lor OPENAT2_RESOLVE_RESOLVE (rs_flags rs)) RESOLVE_NO_SYMLINKS in
+  DynMkdirAll.kpartial s path nosym = DynMkdirAll.KPartial o rm ENOENT ->
+  FSModel.is_dir s o = true -> Static.find_path s o = Some exp ->
+  N.leb READLINK_BUF (N.of_nat (length (Static.render rp exp))) = false ->
+  existsb is_dotdot (DynMkdirAll.parts_of (Some rm)) = false ->
+  DynMkdirComplete.chain_ok s o (DynMkdirAll.parts_of (Some rm)) ->
+  let s' := fst (DynMkdir.mk_spec s o (DynMkdirAll.parts_of (Some rm))) in
+  exists t' fd c,
+    Dyn.drun rp {| Dyn.ds := s; Dyn.dt := t; Dyn.dseen := [] |} (root_mkdir_all fz true (S pfuel) gh ps rs root path mode) =
+      Dyn.DDone {| Dyn.ds := s'; Dyn.dt := t'; Dyn.dseen := [] |} (Ok fd) /\ Static.tget t' fd = Some c /\
+    FSModel.is_dir s' c = true /\ FSModel.kwalk s' path false nosym = FSModel.WOk c /\ DynMkdir.extends s s'.
+Proof. exact DynMkdirComplete.mkdir_all_kernel_succeeds. Qed.
+
 (* executed (non-vacuity): abs -> /a; mkdir_all("abs/x/y/z") on both backends creates a/x, a/x/y, a/x/y/z and
    returns the last one; the pure functions give the same tree and object; a file in the way ends the loop
    with ENOTDIR after a/x was created (what was created lies on the chain) *)
@@ -272,3 +302,5 @@ Print Assumptions C12_partial_lookup_kernel_backend.
 Print Assumptions C12_mkdir_all_kernel_backend.
 Print Assumptions C12_handle_is_resolution_in_resulting_tree.
 Print Assumptions C12_mkdir_all_post_kernel_backend.
+Print Assumptions C12_spec_complete.
+Print Assumptions C12_mkdir_all_succeeds_kernel_backend.
